@@ -100,15 +100,42 @@ pub fn zone(out: &mut String, z: TimeZoneRef<'_>) {
     out.push('}');
 }
 
+/// the `source()` chain of an error value, each link by its Display text
+fn sources(out: &mut String, e: &dyn core::error::Error) {
+    let mut cur = e.source();
+    let mut n = 0;
+    while let Some(s) = cur {
+        let _ = write!(out, " <- {s}");
+        cur = s.source();
+        n += 1;
+        if n > 8 {
+            out.push_str(" <- ...");
+            break;
+        }
+    }
+}
+
 pub fn tzerr(out: &mut String, e: &TzError) {
-    let _ = write!(out, "Err(Tz:{e:?})");
+    let _ = write!(out, "Err(Tz:{e:?} '{e}'");
+    sources(out, e);
+    out.push(')');
 }
 
 pub fn err(out: &mut String, e: &Error) {
     match e {
         #[cfg(feature = "tz-alloc")]
-        Error::Io(_) => out.push_str("Err(Io)"),
-        Error::Tz(t) => tzerr(out, t),
+        Error::Io(_) => {
+            // (the text of an I/O error is the platform's; its presence and the chain are compared)
+            out.push_str("Err(Io");
+            sources(out, e);
+            out.push(')');
+        }
+        Error::Tz(t) => {
+            out.push_str("Err(");
+            tzerr(out, t);
+            sources(out, e);
+            out.push(')');
+        }
         #[allow(unreachable_patterns)]
         _ => out.push_str("Err(?)"),
     }
